@@ -67,8 +67,9 @@ class Shaper:
         self.depth = 0
 
     # ------------------------------------------------------------------ api
-    def shape(self, finfo, names=None, codec_param=None):
-        """term of a module-level codec function; names: positional canonical names for its parameters"""
+    def shape(self, finfo, names=None, codec_param=None, extra_env=None):
+        """term of a module-level codec function; names: positional canonical names for its parameters;
+        extra_env: canonical texts for attribute expressions, e.g. {'self.encoder': 'C'}"""
         self.tok = 0
         params = finfo.pos_params
         env = {}
@@ -81,6 +82,8 @@ class Shaper:
             env.setdefault(pn, pn)
         if codec_param:
             env[codec_param] = "C"
+        if extra_env:
+            env.update(extra_env)
         self.root = finfo
         self.in_codec = finfo.cls is not None and self.codec_cls in self.p.mro(finfo.cls)
         try:
@@ -120,9 +123,14 @@ class Shaper:
             if isinstance(s.value, ast.Constant):
                 return
             if isinstance(s.value, (ast.Yield, ast.YieldFrom)):
+                if s.value.value is not None:
+                    self._expr(f, s.value.value, env, out)
                 out.append(("yield",))
                 return
-            self._expr(f, s.value, env, out)
+            n0 = len(out)
+            txt = self._expr(f, s.value, env, out)
+            if len(out) == n0 and isinstance(s.value, ast.Call):
+                out.append(("call", txt))
             return
         if isinstance(s, (ast.Assign, ast.AnnAssign)):
             if isinstance(s, ast.AnnAssign) and s.value is None:
@@ -377,6 +385,8 @@ class Shaper:
         if isinstance(e, ast.Starred):
             return "*" + self._expr(f, e.value, env, out)
         if isinstance(e, (ast.Yield,)):
+            if e.value is not None:
+                self._expr(f, e.value, env, out)
             out.append(("yield",))
             return "None"
         if isinstance(e, ast.Lambda):
@@ -415,9 +425,10 @@ class Shaper:
     def _call(self, f, call, env, out):
         fn = call.func
         # --- stream primitives on the codec's stream -----------------------
-        if isinstance(fn, ast.Attribute) and fn.attr in ("write", "read") and isinstance(fn.value, ast.Attribute):
-            owner = self._expr(f, fn.value.value, env, [])
-            if (self._is_codec_text(owner) or owner.startswith("NEWCODEC(")) and fn.value.attr in ("_fo", "fo"):
+        if isinstance(fn, ast.Attribute) and fn.attr in ("write", "read"):
+            recv_txt = self._expr(f, fn.value, env, [])
+            is_stream = recv_txt in ("C.fo", "C._fo") or (self.in_codec and recv_txt in ("self.fo", "self._fo")) or (recv_txt.startswith("NEWCODEC(") and recv_txt.endswith((".fo", "._fo")))
+            if is_stream:
                 if fn.attr == "write" and self.side == "w" and len(call.args) == 1:
                     a = call.args[0]
                     if isinstance(a, ast.Call) and isinstance(a.func, ast.Name) and a.func.id == "pack" and len(a.args) == 2:
@@ -503,7 +514,7 @@ class Shaper:
                 return ret or "?"
         args_txt = [self._expr(f, a, env, out) for a in call.args]
         kw_txt = {k.arg: self._expr(f, k.value, env, out) for k in call.keywords}
-        passes_codec = any(a == "C" or a.startswith("C.") or a.startswith("NEWCODEC(") for a in args_txt)
+        passes_codec = any(a in ("C", "C.fo", "C._fo") or (a.startswith("NEWCODEC(") and a.endswith(")")) for a in args_txt)
         if callee is not None and passes_codec and self.depth < 6:
             return self._inline(callee, call, f, env, out, is_method=False, pre_args=args_txt, pre_kw=kw_txt)
         if passes_codec:
